@@ -23,6 +23,7 @@ type c15pre struct {
 	zeroElys    math.Int
 	vestRelease map[string]math.Int // signer name -> uelys a ClaimVesting in the next block releases (reference formula)
 	vestNowFac  math.Int
+	claimedEden map[string]math.Int // claimed ueden of every signer that sends MsgVestNow in this block
 	height      int64
 	provEpoch   int64    // current number of the provider-vesting epoch
 	provRelease math.Int // what the provider reward account's schedule releases at the next height
@@ -116,6 +117,13 @@ func OracleC15() *Oracle {
 					if _, ok := m.(*ctypes.MsgClaimVesting); ok {
 						p.vestRelease[t.Signer] = refVestRelease(w, ctx, w.A(t.Signer).Addr, p.height)
 					}
+					if _, ok := m.(*ctypes.MsgVestNow); ok {
+						if p.claimedEden == nil {
+							p.claimedEden = map[string]math.Int{}
+						}
+						cm := w.App.CommitmentKeeper.GetCommitments(ctx, w.A(t.Signer).Addr)
+						p.claimedEden[t.Signer] = cm.GetClaimedForDenom("ueden")
+					}
 				}
 			}
 			p.provEpoch = provEpochNo(w, ctx)
@@ -158,6 +166,23 @@ func OracleC15() *Oracle {
 					}
 				}
 				return addr
+			}
+			// an immediate conversion (VestNow) mints native tokens AGAINST Eden: the Eden must leave the book
+			for i, r := range t.Res.Res.TxResults {
+				pt, ok := txOf[i]
+				if !ok || r.Code != 0 || len(pt.Msgs) != 1 {
+					continue
+				}
+				if vn, ok := pt.Msgs[0].(*ctypes.MsgVestNow); ok && vn.Denom == "ueden" {
+					cm := w.App.CommitmentKeeper.GetCommitments(ctx, w.A(pt.Signer).Addr)
+					Clauses.Inc("vest_now_consumes_eden")
+					if had, ok := pre.claimedEden[pt.Signer]; ok {
+						// other txs of the same signer in the block could move the balance too: the plans of this alphabet carry one tx per signer
+						if took := had.Sub(cm.GetClaimedForDenom("ueden")); !took.Equal(vn.Amount) {
+							bad("vest_now_minted_without_consuming_eden", "", fmt.Sprintf("MsgVestNow of %s ueden by %s succeeded; claimed Eden went %s -> %s (took %s)", vn.Amount, pt.Signer, had, cm.GetClaimedForDenom("ueden"), took))
+						}
+					}
+				}
 			}
 			for _, sc := range scopes {
 				for _, m := range sc.msgs {
